@@ -64,11 +64,26 @@ class StmtMixin:
         e = st.exc
         fn = e.func if isinstance(e, ast.Call) else e
         if isinstance(e, ast.Call):
+            args = []
             for a in e.args:      # evaluate the message for its safety obligations
                 try:
-                    self.eval(fr, a)
+                    args.append(self.eval(fr, a))
                 except Unsupported:
-                    pass
+                    args.append(None)
+            # an exception class of /repo with a constructor of its own: the constructor runs before anything is raised, and
+            # what it raises itself (e.g. on an argument of the wrong kind) is what escapes
+            try:
+                cls = self.eval(fr, fn)
+            except Unsupported:
+                cls = None
+            if isinstance(cls, SClass) and not e.keywords and all(a is not None for a in args):
+                ci = self.d.classinfo(cls.qual)
+                init = self.find_method(ci, '__init__') if ci is not None else None
+                if init is not None:
+                    try:
+                        self.call_value(fr, cls, args, {}, e)
+                    except Unsupported:
+                        pass
         name = fn.attr if isinstance(fn, ast.Attribute) else (fn.id if isinstance(fn, ast.Name) else None)
         if name is None:
             raise Unsupported('raise of computed exception')
